@@ -120,7 +120,7 @@ def validate_events(module, cfg, events, scope_path, on_reject, chunk=200, timeo
     return traces
 
 
-def binding_check(module, cfg, good_event, corrupt, scope_path, env=None):
+def binding_check(module, cfg, good_event, corrupt, scope_path, env=None, strict=True):
     """The trace specification must accept the recorded event and reject its corrupted twin; otherwise it is
     vacuous or broken: a tool error, never a verdict."""
     e = dict(env or {})
@@ -128,10 +128,27 @@ def binding_check(module, cfg, good_event, corrupt, scope_path, env=None):
         e["VERIF_SCOPE"] = scope_path
     r1 = common.validate_trace(module, cfg, [good_event], env=e, timeout=300)
     if not r1["accepted"]:
-        return  # the event itself is a violation; reported elsewhere
+        return None  # the event itself is a violation; reported elsewhere
     r2 = common.validate_trace(module, cfg, [corrupt(good_event)], env=e, timeout=300)
     if r2["accepted"]:
+        if not strict:
+            return False
         raise common.ToolError(f"{module} accepted a corrupted event: the trace specification is vacuous")
+    return True
+
+
+def binding_check_some(module, cfg, candidates, corrupt, scope_path, env=None, tries=12):
+    """like binding_check, over several recorded events: some of them may legitimately lie where the specification is silent
+    (`any`), so that their corrupted twin is accepted too; at least one of the first `tries` must be bound"""
+    n = 0
+    for ev in candidates:
+        n += 1
+        if binding_check(module, cfg, ev, corrupt, scope_path, env=env, strict=False):
+            return
+        if n >= tries:
+            break
+    if n:
+        raise common.ToolError(f"{module} accepted the corrupted twins of {n} recorded events: the trace specification is vacuous")
 
 
 # ---- stimulus generation: canonical presentations of a value (transcription of SerdeModel!Canon, styles "named"/"rust")
